@@ -2,6 +2,7 @@
 CONSTANTS
   N = 2
   NI = 2
+  NK = 1
   MaxClock = 1
   Retention = 1
   T = 2
@@ -17,6 +18,7 @@ CONSTANTS
   GateNodes = {}
   InboxCap = 1
   VersionTest = TRUE
+  KeyTest = TRUE
   MaxDel = 0
   ObsoleteTimeout = 1
   ConsumeNet = FALSE
